@@ -2,7 +2,7 @@
    the process panic hook installed by the embedding program must see NOTHING while the run is in progress and
    must be back in place afterwards. The scheduler model keeps the hook suppressed from the first loop turn to
    the end (Sched.hook_suppressed); here the observation is judged directly. *)
-From CV Require Import Model.Base Model.Events Model.Sched Model.SchedSpec Check.Verdict Check.SchedCheck.
+From CV Require Import Model.Base Model.Events Model.Sched Model.SchedSpec Check.Verdict Check.SchedCheck Check.C02bCheck.
 
 Record hcase := mk_hcase {
   hc_run : sdcase;
@@ -16,7 +16,9 @@ Definition n_panics (h : hist) : N :=
                                      | HEv (EvScen _ _ _ _ (ScHook _ (HFailed _))) => true
                                      | _ => false end) h)).
 
-Definition c10b_ok (c : hcase) : bool := (hc_calls c =? 0) && hc_restored c.
+(* ... and "other scenarios are unaffected, the attempt still gets its after hook and Finished event": whatever fails in
+   one attempt, every attempt of the run keeps the canonical shape and is finished once the run has ended *)
+Definition c10b_ok (c : hcase) : bool := (hc_calls c =? 0) && hc_restored c && c02b_ok (hc_run c).
 
 (* the model: the hook is suppressed exactly from the first loop turn until the loop has ended *)
 Definition model_suppressed (c : hcase) : bool :=
